@@ -43,6 +43,10 @@ ORACLE = os.environ.get("VF_ORACLE", "C12")
 
 CFG = A.ENV0.config
 DCFG = CFG.dispatcher._replace(valid_dispatch_states=("idle", "repositioning", "reservebase", "chargingbase"))
+if os.environ.get("VF_THRESH") == "swap":
+    # a configuration whose base-charging range threshold lies BELOW the matching threshold (the defaults are 100 km / 20 km):
+    # both range conditions must still hold for a vehicle charging at a base
+    DCFG = DCFG._replace(base_charging_range_km_threshold=10.0, matching_range_km_threshold=20.0)
 FLEETS = (frozenset(), frozenset(["f1"]), frozenset(["f1", "f2"]))
 ELIG_KINDS = (0, 2, 5, 6, 9, 1, 3)  # Idle, Repositioning, ReserveBase, ChargingBase, DispatchTrip, OutOfService, ChargingStation
 VALID_NAMES = ("idle", "repositioning", "reservebase", "chargingbase")
@@ -232,6 +236,8 @@ def _optimal(cost, n_v, n_r):
 
 def h_match(c0: int, c1: int, e0: bool, e1: bool, e2: bool, p1: bool, p2: bool, rc1: int, rc2: int, rm0: int, val0: int) -> bool:
     """
+    VF_WARM=1: the same Dispatcher first runs on an EARLIER state in which v1 and the requests r1, r2 stood elsewhere (same ids,
+    other cells) -- anything remembered from that run (per id, per pair) must not influence the matching that is judged
     pre: 0 <= c0 <= 3 and 0 <= c1 <= 1 and 0 <= rc1 <= 1 and 0 <= rc2 <= 1 and 0 <= rm0 <= 1 and 4 <= val0 <= 6
     post: _
     """
@@ -240,6 +246,11 @@ def h_match(c0: int, c1: int, e0: bool, e1: bool, e2: bool, p1: bool, p2: bool, 
         return True
     sim, elig, present = mw
     env, rec = _env(M_FLEETS)
+    if os.environ.get("VF_WARM") == "1":
+        mw0 = _match_world(c0, 1 - c1, True, True, True, True, True, 1 - rc1, 1 - rc2, rm0, val0)
+        if mw0 is not None:
+            env0, _ = _env(M_FLEETS)
+            Dispatcher(DCFG).generate_instructions(mw0[0], env0)
 
     gen, instrs = Dispatcher(DCFG).generate_instructions(sim, env)  # ---- real code
 
